@@ -102,6 +102,8 @@ func runOne(ctx context.Context, sp solverSpec, timeoutS int, file string) *Solv
 }
 
 // Solve decides one query text. Definite answers: unsat / sat.
+var rawSeq int64
+
 func (s *Solver) Solve(query string) *SolveResult {
 	h := sha256.Sum256([]byte(query))
 	key := hex.EncodeToString(h[:12])
@@ -111,7 +113,9 @@ func (s *Solver) Solve(query string) *SolveResult {
 		return r
 	}
 	s.mu.Unlock()
-	file := filepath.Join(s.dir, key+".smt2")
+	// the file name is unique per call: two goroutines deciding the same query must not
+	// delete each other's input
+	file := filepath.Join(s.dir, key+"-"+itoa(int(atomic.AddInt64(&rawSeq, 1)))+".smt2")
 	_ = os.WriteFile(file, []byte(query), 0o644)
 	defer os.Remove(file)
 
@@ -172,8 +176,6 @@ func (s *Solver) remember(key string, r *SolveResult) *SolveResult {
 	s.mu.Unlock()
 	return r
 }
-
-var rawSeq int64
 
 // RunRaw runs one solver on a complete script and returns its output.
 func (s *Solver) RunRaw(name, query string, timeoutS int) string {
